@@ -621,7 +621,10 @@ func (up *SyncClient) syncNode(parent, id string) error {
 		}
 	}
 
-	if nodeDeleted {
+	// only the device node itself is restored upstream if it was deleted
+	// there, for everything below it a deletion is an edge point like any
+	// other and the newest one wins (see below)
+	if nodeDeleted && nodeLocal.ID == up.rootLocal.ID {
 		nodeUp = nodeUps[0]
 		// restore a node on the upstream
 		// update the local tombstone timestamp so it is newer than the remote tombstone timestamp
@@ -778,14 +781,16 @@ func (up *SyncClient) syncNode(parent, id string) error {
 		}
 	}
 
-	// sync child nodes
-	children, err := GetNodes(up.ncLocal, nodeLocal.ID, "all", "", false)
+	// sync child nodes. Deleted children are included on both sides,
+	// otherwise a deletion made on one side while the link was down is
+	// never compared with (and never reaches) the other side.
+	children, err := GetNodes(up.ncLocal, nodeLocal.ID, "all", "", true)
 	if err != nil {
 		return fmt.Errorf("Error getting local node children: %v", err)
 	}
 
 	// FIXME optimization we get the edges here and not the full child node
-	upChildren, err := GetNodes(up.ncRemote, nodeUp.ID, "all", "", false)
+	upChildren, err := GetNodes(up.ncRemote, nodeUp.ID, "all", "", true)
 	if err != nil {
 		return fmt.Errorf("Error getting upstream node children: %v", err)
 	}
